@@ -208,9 +208,17 @@ func Exec(t *testing.T, sc Scenario, r *evid.Run) *evid.Failure {
 			}
 		}
 		mu.Lock()
+		// (payloads of hostile messages reach the handler too, on their own connections: only the
+		// bodies the well-behaved clients sent are attributed)
+		owner := map[string]string{}
+		for i := range good {
+			for _, b := range sent[i] {
+				owner[b] = fmt.Sprintf("good-%d", i)
+			}
+		}
 		for _, h := range handled {
-			if len(h.body) > 0 && h.body[0] == 'c' && h.remote != fmt.Sprintf("good-%c", h.body[1]) {
-				fail = evid.Failf("serve/cross-connection", sc, "request %q was handled on the connection of %s", h.body, h.remote)
+			if o, ok := owner[h.body]; ok && h.remote != o {
+				fail = evid.Failf("serve/cross-connection", sc, "request %q of %s was handled on the connection of %s", h.body, o, h.remote)
 			}
 		}
 		mu.Unlock()
